@@ -1728,6 +1728,24 @@ impl IdmServerProxyReadTransaction<'_> {
                 e
             })?;
 
+        // The validity window must be decided on the full entry: the access-reduced entry only
+        // carries account_valid_from / account_expire when the asker's access profile grants
+        // them (the RADIUS servers profile does not), and an absent value reads as "no limit".
+        let full_entry = self.qs_read.internal_search_uuid(rate.target)?;
+        if !Account::check_within_valid_time(
+            ct,
+            full_entry
+                .get_ava_single_datetime(Attribute::AccountValidFrom)
+                .as_ref(),
+            full_entry
+                .get_ava_single_datetime(Attribute::AccountExpire)
+                .as_ref(),
+        ) {
+            return Err(OperationError::InvalidAccountState(
+                "Account Expired".to_string(),
+            ));
+        }
+
         account.to_radiusauthtoken(ct)
     }
 
